@@ -48,6 +48,12 @@ theorem generated_init_order : Generated.moduleInitOrder = initOrder := by decid
     of the model loads the global `cur p` at call time. -/
 theorem generated_no_alias : Generated.lockAliases = [] := by decide
 
+/-- the urwid screen's terminal-touching methods are all overridden with `@lock_tty`: the redraw,
+    the transmission of the output buffer, the input poll and `write()` (which application code and
+    `clear_images(now=False)` call outside a redraw) -/
+theorem generated_screen_sync :
+    Generated.screenSyncMethods = ["draw_screen", "flush", "get_available_raw_input", "write"] := by decide
+
 /-- the anchored users are synchronized through `lock_tty` -/
 theorem generated_users : ∀ u ∈ requiredUsers, u ∈ Generated.lockTtyUsers := by decide
 
